@@ -372,7 +372,7 @@ Proof.
     + destruct (run_body E C fault k h1 s1) as [[[r1 l1] h2] s2] eqn:Ek. eapply Hcont; [reflexivity | exact H].
     + destruct chk; [apply Hret; exact H|].
       destruct (run_body E C fault k h1 s1) as [[[r1 l1] h2] s2] eqn:Ek. eapply Hcont; [reflexivity | exact H].
-    + destruct rcv; [|apply Hret; exact H].
+    + destruct (recovers rcv q); [|apply Hret; exact H].
       destruct (run_body E C fault k h1 s1) as [[[r1 l1] h2] s2] eqn:Ek. eapply Hcont; [reflexivity | exact H].
   - (* Save *)
     destruct (h_sp E C fault true (NUser n) h s) as [h1 s1] eqn:Es.
